@@ -8,7 +8,7 @@ from typing import Dict, List, Optional, Set, Tuple
 
 from ..core import AnalysisError, Func, call_name, norm, short, walk_no_nested
 
-MODULES = ("compiler", "vm", "context")
+MODULES = ("compiler", "vm", "context", "values")
 
 
 def _set_functions(ctx) -> Set[str]:
@@ -46,7 +46,7 @@ def _set_names(f: Func, setfuncs: Set[str]) -> Set[str]:
                         is_set = True
                     elif isinstance(v.func, ast.Name) and v.func.id in setfuncs:
                         is_set = True
-                elif isinstance(v, ast.BinOp) and isinstance(v.op, (ast.BitOr, ast.BitAnd, ast.Sub)) and any(isinstance(x, ast.Name) and x.id in names for x in (v.left, v.right)):
+                elif isinstance(v, ast.BinOp) and isinstance(v.op, (ast.BitOr, ast.BitAnd, ast.Sub, ast.BitXor)) and any((isinstance(x, ast.Name) and x.id in names) or isinstance(x, (ast.Set, ast.SetComp)) or (isinstance(x, ast.Call) and norm(x.func) in ("set", "frozenset")) for x in (v.left, v.right)):
                     is_set = True
                 if is_set and n.targets[0].id not in names:
                     names.add(n.targets[0].id)
@@ -106,6 +106,50 @@ def rule_hash_order(ctx, rep, rid: str) -> None:
                     rep.bad(rid, key, f"{f.qual} calls {bad} while iterating the set {n.iter.id}: the order of the effect depends on the host's string-hash seed", f"{f.module.rel}:{n.lineno}")
                 else:
                     rep.ok(rid, key)
+    # 1b. local sequences filled from a set and then handed on in an order-sensitive way
+    for f in funcs:
+        sn = _set_names(f, setfuncs)
+        if not sn:
+            continue
+
+        def over_set(e: ast.AST) -> Optional[str]:
+            if isinstance(e, (ast.ListComp, ast.GeneratorExp)) and isinstance(e.generators[0].iter, ast.Name) and e.generators[0].iter.id in sn:
+                return e.generators[0].iter.id
+            if isinstance(e, ast.Call) and norm(e.func) in ("list", "tuple") and e.args:
+                if isinstance(e.args[0], ast.Name) and e.args[0].id in sn:
+                    return e.args[0].id
+                return over_set(e.args[0])
+            return None
+
+        seqs: Dict[str, Tuple[str, int]] = {}
+        for n in f.own_nodes():
+            if isinstance(n, ast.Assign) and len(n.targets) == 1 and isinstance(n.targets[0], ast.Name) and over_set(n.value):
+                seqs[n.targets[0].id] = (over_set(n.value), n.lineno)
+            if isinstance(n, ast.Call) and isinstance(n.func, ast.Attribute) and n.func.attr in ("extend", "append") and isinstance(n.func.value, ast.Name) and n.args and over_set(n.args[0]):
+                seqs[n.func.value.id] = (over_set(n.args[0]), n.lineno)
+            if isinstance(n, ast.AugAssign) and isinstance(n.target, ast.Name) and over_set(n.value):
+                seqs[n.target.id] = (over_set(n.value), n.lineno)
+            if isinstance(n, ast.For) and isinstance(n.iter, ast.Name) and n.iter.id in sn:
+                for c in ast.walk(ast.Module(body=n.body, type_ignores=[])):
+                    if isinstance(c, ast.Call) and isinstance(c.func, ast.Attribute) and c.func.attr in ("append", "extend", "insert") and isinstance(c.func.value, ast.Name):
+                        seqs[c.func.value.id] = (n.iter.id, n.lineno)
+        for name, (sset, line) in seqs.items():
+            sources += 1
+            key = f"{f.qual}:{name}<-{sset}"
+            sink = None
+            for n in f.own_nodes():
+                if isinstance(n, ast.Return) and n.value is not None and any(isinstance(x, ast.Name) and x.id == name for x in ast.walk(n.value)) and not (isinstance(n.value, ast.Call) and norm(n.value.func) in ("sorted", "len", "set", "frozenset")):
+                    sink = f"returned at line {n.lineno}"
+                if isinstance(n, ast.Assign) and isinstance(n.value, ast.Name) and n.value.id == name and any(isinstance(t, ast.Attribute) and t.attr in ("_elements", "keys") for t in n.targets):
+                    sink = f"stored as {norm(n.targets[0])} at line {n.lineno}"
+                if isinstance(n, ast.Call) and isinstance(n.func, ast.Attribute) and n.func.attr == "join" and n.args and isinstance(n.args[0], ast.Name) and n.args[0].id == name:
+                    sink = f"joined into a string at line {n.lineno}"
+                if isinstance(n, ast.Call) and isinstance(n.func, ast.Name) and n.func.id[:1].isupper() and any(isinstance(a, ast.Name) and a.id == name for a in n.args):
+                    sink = f"passed to {n.func.id}(...) at line {n.lineno}"
+            if sink:
+                rep.bad(rid, key, f"{f.qual} fills `{name}` by iterating the set `{sset}` (line {line}) and the sequence is {sink}: its order changes with the host's string-hash seed (sort it, or keep an insertion-ordered dict)", f"{f.module.rel}:{line}")
+            else:
+                rep.ok(rid, key, {"use": "local, order-insensitive"})
     if sources + ordered < 3:
         raise AnalysisError(f"only {sources + ordered} set->sequence conversions found (expected >= 3): anchors vanished")
     rep.analysed["set_to_sequence_conversions"] = {"hash_ordered": sources, "sorted": ordered}
